@@ -259,6 +259,51 @@ def split_row_child(r, transport, bench, rec, stats, encoding=None):
                                         'lead': r['l'] if transport != 'pty-list' else None})
 
 
+def unencodable_argument_cases(bench, rec, stats, only=None):
+    """An argument the instance encoding cannot represent, under every error policy: pexpect either refuses to
+    start the child (an exception, nothing launched) or the child sees exactly the requested argv - never a
+    child started with an argument from which characters were dropped or replaced."""
+    name = sorted(bench.names)[0]
+    cases = []
+    for encoding, arg in (('ascii', 'caf\u00e9'), ('latin-1', '\u20ac5'), ('ascii', 'a\u00e9b c'), ('utf-8', 'caf\u00e9'),
+                          ('latin-1', 'caf\u00e9')):
+        for errors in ('strict', 'ignore', 'replace', 'backslashreplace'):
+            for form in ('list', 'line'):
+                cases.append((encoding, errors, arg, form))
+    for encoding, errors, arg, form in cases:
+        if only is not None and (encoding, errors, arg, form) != tuple(only):
+            continue
+
+        def once():
+            bench.clear()
+            stats['evaluations'] += 1
+            if form == 'list':
+                err = run_pty(name, [arg, 'z'], env=bench.env(), encoding=encoding, codec_errors=errors)
+            else:
+                err = run_pty("%s '%s' z" % (name, arg), env=bench.env(), encoding=encoding, codec_errors=errors)
+            got = bench.report()
+            if got is None:
+                return None                       # nothing was started (refused): allowed
+            want = [os.path.join(bench.dir, name), arg.encode(encoding, 'surrogateescape').decode('utf-8', 'surrogateescape')
+                    if _encodable(arg, encoding) else None, 'z']
+            if want[1] is None or got != want:
+                return {'encoding': encoding, 'codec_errors': errors, 'argument': arg, 'form': form, 'child_argv': got,
+                        'what': 'a child was started with an argument that is not the requested one', 'raised': err}
+            return None
+        bad = stable(once)
+        if bad is not None:
+            rec.fail('C13:argv-in-child', {'kind': 'unencodable', 'case': [encoding, errors, arg, form]}, detail=bad,
+                     signature={'part': 'argv-unencodable', 'encoding': encoding, 'errors': errors, 'form': form})
+
+
+def _encodable(arg, encoding):
+    try:
+        arg.encode(encoding)
+        return True
+    except UnicodeError:
+        return False
+
+
 # ---------------------------------------------------------------------------------------------
 # (b) which
 
@@ -1288,6 +1333,8 @@ def replay(ctx):
         split_row_inprocess(c['row'], rec, st, reps=(c['rep'],))
     elif c['kind'] == 'argv':
         split_row_child(c['row'], c['transport'], ArgvBench(ctx.work), rec, st, encoding=c.get('encoding'))
+    elif c['kind'] == 'unencodable':
+        unencodable_argument_cases(ArgvBench(ctx.work), rec, st, only=c['case'])
     elif c['kind'] == 'which':
         which_row(c['row'], os.path.join(ctx.work, 'tree'), rec, st, transports=tuple(c.get('transports', ())))
     elif c['kind'] == 'config':
@@ -1365,6 +1412,7 @@ def run(ctx):
         if r['px']:
             split_row_child(r, 'popen', abench, rec, st_argv, encoding=(None, 'utf-8')[n % 2])
             npopen += 1
+    unencodable_argument_cases(abench, rec, st_argv)
     t_argv = time.time() - t0
     fails_argv = rec.total() - fails_split
     ctx.note('argv in child: %d sampled cases through pexpect.spawn(command line), %d of them (same meaning for shlex) through '
